@@ -31,6 +31,7 @@ def joint_cases(rng, tier):
 def gen(rng, tier):
     n = 70 if tier == "quick" else 2500
     cases = joint_cases(rng, tier)
+    cases += [core.case_from_struct(G.gen_doubled_nodes(rng)) for _ in range(6 if tier == "quick" else 60)]
     for i in range(n):
         s = G.gen_frame(rng, max_cells=3)
         if i % 4 == 0:
@@ -54,7 +55,7 @@ SPEC = {
     "oracle": oracle,
     "stages": [("C", lambda c, o, rng: S.stageC_case(o), S.stageC_v, 12, None)],
     "nontrivial": lambda c, o: len(o["Bars"]) >= 2,
-    "rule": "two/three-bar joints over the 8 x 8 link combinations (24 sampled in quick, all 64 in thorough) and frames on a grid with random links (rigid, pinned, sliding, single-component, free) at bar ends; "
+    "rule": "distinct nodes at the same coordinates (crossing, unconnected members); two/three-bar joints over the 8 x 8 link combinations (24 sampled in quick, all 64 in thorough) and frames on a grid with random links (rigid, pinned, sliding, single-component, free) at bar ends; "
             "non-trivial iff at least two bars; the iff 'same number <=> same unknown', the range 0..count-1 and the absence of gaps are checked on AssignDof's output, and the Coq model must issue exactly the same numbers (stage C)",
     "assumptions": ["sort.Sort(ByGeometryPos) only permutes the bars; the model is run on the order the implementation ended up with (C16_order_independent covers every other order)"],
 }
